@@ -63,6 +63,8 @@ def lift(x):
         return x
     if isinstance(x, np.ndarray) and x.ndim == 0:
         return lift(x.item())
+    if type(x).__name__ == "Q" and hasattr(x, "sym"):          # a rational function (symx.ratfun.Q)
+        return x.sym().t
     raise TypeError("cannot lift %r" % type(x))
 
 
